@@ -58,6 +58,7 @@ type Case struct {
 	Extracts []string // -e (joined with NUL by rare)
 	Ignores  []string
 	Flags    []string // command specific flags (sort, delim..)
+	Delim    string   // table | heatmap | spark: --delim (the key/sub-key/increment separator written into one -e); "" = several -e, joined by the default NUL
 	Groups   []string // reduce -g
 	Accums   []string // reduce -a
 	Tunings  []Tuning
@@ -209,6 +210,10 @@ func gen(t *rapid.T) Case {
 		if c.Cmd == "spark" {
 			c.Flags = append(c.Flags, "--notruncate")
 		}
+		if rapid.IntRange(0, 2).Draw(t, "delim") == 0 && !strings.ContainsAny(k1, "\\") {
+			// a separator of the user's choice, one or several bytes long
+			c.Delim = rapid.SampledFrom([]string{";", "::", "→", " | "}).Draw(t, "delimText")
+		}
 		if c.Cmd == "table" && rapid.Bool().Draw(t, "x") {
 			c.Flags = append(c.Flags, "-x")
 		}
@@ -321,8 +326,12 @@ func baseArgs(c *Case, tu *Tuning) []string {
 	args := []string{"--nocolor", "--noformat", cmd, "-m", matchExpr,
 		"--workers", strconv.Itoa(tu.Workers), "--batch", strconv.Itoa(tu.Batch),
 		"--batch-buffer", strconv.Itoa(tu.BatchBuffer), "--readers", strconv.Itoa(tu.Readers)}
-	for _, e := range c.Extracts {
-		args = append(args, "-e", e)
+	if c.Delim != "" {
+		args = append(args, "-e", strings.Join(c.Extracts, c.Delim), "--delim", c.Delim)
+	} else {
+		for _, e := range c.Extracts {
+			args = append(args, "-e", e)
+		}
 	}
 	for _, e := range c.Ignores {
 		args = append(args, "-i", e)
@@ -514,7 +523,11 @@ func addTo(m map[string]*big.Int, k string, v int64) {
 }
 
 func reference(c *Case) (*refAgg, error) {
-	pc := pipe.Case{Matcher: pipe.Matcher{Kind: "regex", Pattern: matchExpr}, Extract: strings.Join(c.Extracts, "\x00"), Ignores: c.Ignores}
+	sepr := "\x00"
+	if c.Delim != "" {
+		sepr = c.Delim
+	}
+	pc := pipe.Case{Matcher: pipe.Matcher{Kind: "regex", Pattern: matchExpr}, Extract: strings.Join(c.Extracts, sepr), Ignores: c.Ignores}
 	var all bytes.Buffer
 	for _, l := range c.Lines {
 		all.WriteString(string(l))
@@ -531,7 +544,7 @@ func reference(c *Case) (*refAgg, error) {
 			continue
 		}
 		a.matched++
-		parts := strings.Split(l.Key, "\x00")
+		parts := strings.Split(l.Key, sepr)
 		switch c.Cmd {
 		case "histo":
 			inc := int64(1)
